@@ -564,6 +564,82 @@ func c04R2(c *Ctx, p *Prog) {
 			fmt.Sprintf("pre-filter literals %v cover every rewrite key %v", prefilter, gk),
 			fmt.Sprintf("units containing %v skip the rewrite: pre-filter literals are %v but the rewrite keys are %v", missing, prefilter, gk))
 	}
+	// Every path that returns the unit unchanged without running the general rewrite must exclude every unit with a
+	// rewrite key as a numerator component. Two guards establish that: the unit equals a literal (a fast-path row,
+	// verified above) or, for every key, a substring-absence test strings.Contains(unit, s) == false with s inside the
+	// key. Helper functions are evaluated in place, so extracting the test into a helper changes nothing; a guard
+	// built from anything else (first occurrence only, prefix tests, lengths) does not exclude the keys.
+	tu := p.Fn("benchunit", "tidyUnit")
+	if tu == nil {
+		return
+	}
+	general2 := map[string]bool{}
+	for _, k := range gk {
+		general2[k] = true
+	}
+	mk := func() *e6Interp {
+		return &e6Interp{PureCall: func(f *types.Func) bool { return true }, MaxAtoms: 24,
+			Inline: func(f *ssa.Function) bool {
+				return f.Pkg == tu.Pkg && f != tu && len(naturalLoops(f)) == 0
+			}}
+	}
+	outs, why := e6Enumerate(mk, tu.Blocks[0], nil, nil, 50000)
+	if why != "" {
+		c.Undecided(R, "identity-returns", p.pos(tu.Pos()), why)
+		return
+	}
+	nIdent := 0
+	for _, o := range outs {
+		if o.Term != "return" || len(o.Results) != 2 || o.Results[0].Op != "param" || !o.Results[1].isConst() {
+			continue
+		}
+		isRow := false
+		var absent []string
+		unknown := ""
+		for k, v := range o.Assign {
+			s := o.AtomSyms[k]
+			switch {
+			case s.Op == "binop" && s.Tok == token.EQL && s.Args[0].Op == "param" && s.Args[1].isConst():
+				if v {
+					isRow = true
+				}
+			case s.Op == "call" && s.Name == "strings.Contains" && len(s.Args) == 2 && s.Args[0].Op == "param" && s.Args[1].isConst() && s.Args[1].Const != nil && s.Args[1].Const.Kind() == constant.String:
+				if !v {
+					absent = append(absent, constant.StringVal(s.Args[1].Const))
+				} else {
+					unknown = k + "=true"
+				}
+			default:
+				unknown = k
+			}
+		}
+		if isRow {
+			continue
+		}
+		nIdent++
+		var uncovered []string
+		for _, key := range gk {
+			cov := false
+			for _, a := range absent {
+				if a != "" && strings.Contains(key, a) {
+					cov = true
+				}
+			}
+			if !cov {
+				uncovered = append(uncovered, key)
+			}
+		}
+		sort.Strings(absent)
+		ck := fmt.Sprintf("identity-return[absent=%s]#%d", strings.Join(absent, ","), nIdent)
+		switch {
+		case unknown != "" && len(uncovered) > 0:
+			c.Bad(R, ck, p.pos(tu.Pos()), fmt.Sprintf("tidyUnit returns the unit unchanged under the condition %s, which does not exclude units that have %v as a numerator component (e.g. a component later in the unit): such units are left unnormalised, so one metric appears under two unit names", truncate(o.AssignStr(), 300), uncovered))
+		case len(uncovered) > 0:
+			c.Bad(R, ck, p.pos(tu.Pos()), fmt.Sprintf("tidyUnit returns the unit unchanged although only %v were tested absent; units containing %v skip the rewrite", absent, uncovered))
+		default:
+			c.OK(R, ck, p.pos(tu.Pos()), fmt.Sprintf("identity return only when %v are absent from the unit, which covers the rewrite keys %v", absent, gk))
+		}
+	}
 }
 
 func c04R3(c *Ctx, p *Prog) {
